@@ -27,19 +27,20 @@ type h2stream struct {
 }
 
 type h2peerConn struct {
-	c    net.Conn
-	fr   *http2.Framer
-	wmu  sync.Mutex
-	mu   sync.Mutex
-	cond *sync.Cond
-	st   map[uint32]*h2stream
-	last uint32
-	gone bool
-	henc *hpack.Encoder
-	hbuf bytes.Buffer
+	c     net.Conn
+	fr    *http2.Framer
+	wmu   sync.Mutex
+	mu    sync.Mutex
+	cond  *sync.Cond
+	st    map[uint32]*h2stream
+	last  uint32
+	gone  bool
+	acked bool // our SETTINGS were acknowledged
+	henc  *hpack.Encoder
+	hbuf  bytes.Buffer
 }
 
-func newH2PeerConn(c net.Conn) (*h2peerConn, error) {
+func newH2PeerConn(c net.Conn, settings ...http2.Setting) (*h2peerConn, error) {
 	p := &h2peerConn{c: c, st: map[uint32]*h2stream{}}
 	p.cond = sync.NewCond(&p.mu)
 	p.henc = hpack.NewEncoder(&p.hbuf)
@@ -50,7 +51,7 @@ func newH2PeerConn(c net.Conn) (*h2peerConn, error) {
 	}
 	c.SetDeadline(time.Time{})
 	p.fr = http2.NewFramer(c, c)
-	if err := p.fr.WriteSettings(); err != nil {
+	if err := p.fr.WriteSettings(settings...); err != nil {
 		return nil, err
 	}
 	go p.readLoop()
@@ -85,6 +86,8 @@ func (p *h2peerConn) readLoop() {
 				p.wmu.Lock()
 				p.fr.WriteSettingsAck()
 				p.wmu.Unlock()
+			} else {
+				p.acked = true
 			}
 		case *http2.PingFrame:
 			if !f.IsAck() {
@@ -166,6 +169,9 @@ type h2spec struct {
 	Reuse    bool   `json:"reuse,omitempty"`
 	Upload   bool   `json:"upload,omitempty"`
 	Bodiless bool   `json:"bodiless,omitempty"`
+	SlotWait bool   `json:"slot_wait,omitempty"`  // MAX_CONCURRENT_STREAMS = 1 and a held request: the scenario's request waits for a stream slot
+	Expect   bool   `json:"expect,omitempty"`     // Expect: 100-continue (upload)
+	EarlyRsp bool   `json:"early_resp,omitempty"` // the response head arrives while the upload is stalled on flow control
 }
 
 type h2obs struct {
@@ -202,17 +208,33 @@ type h2obs struct {
 }
 
 type h2run struct {
-	spec   h2spec
-	ln     net.Listener
-	dl     *dialer
-	pc     *h2peerConn
-	nacc   int
-	gate   *dialGate
-	call   *call
-	sid    uint32
-	body   *trackedBody
-	resp   []byte
-	accept chan net.Conn
+	spec            h2spec
+	ln              net.Listener
+	dl              *dialer
+	pc              *h2peerConn
+	nacc            int
+	gate            *dialGate
+	call            *call
+	sid             uint32
+	body            *trackedBody
+	resp            []byte
+	accept          chan net.Conn
+	blockerDone     chan struct{}
+	blockerFinished bool
+}
+
+func (r *h2run) finishBlocker() error {
+	if r.blockerDone == nil || r.blockerFinished {
+		return nil
+	}
+	r.blockerFinished = true
+	if err := r.pc.headers(1, false, ":status", "200"); err != nil {
+		return err
+	}
+	if err := r.pc.data(1, true, []byte("warm")); err != nil {
+		return err
+	}
+	return waitCh(r.blockerDone, "the held request did not finish")
 }
 
 type h2step struct {
@@ -226,7 +248,11 @@ const h2UploadLen = 200 << 10
 func (r *h2run) acceptConn() error {
 	select {
 	case c := <-r.accept:
-		pc, err := newH2PeerConn(c)
+		var set []http2.Setting
+		if r.spec.SlotWait {
+			set = append(set, http2.Setting{ID: http2.SettingMaxConcurrentStreams, Val: 1})
+		}
+		pc, err := newH2PeerConn(c, set...)
 		if err != nil {
 			return err
 		}
@@ -254,7 +280,23 @@ func (r *h2run) waitRequestHeaders(after uint32) error {
 func h2steps(sp h2spec) []h2step {
 	var st []h2step
 	hdrLabels := []string{"YAcquired", "YHdrWritten"}
-	if sp.Reuse {
+	if sp.Expect {
+		hdrLabels = []string{"YAcquired", "YHdrExpect"}
+	}
+	if sp.SlotWait {
+		st = append(st, h2step{"waiting for a stream slot (MAX_CONCURRENT_STREAMS reached)", nil, func(r *h2run) error {
+			if !settle(func() bool { return countFrames(libGoroutines(), "awaitOpenSlotForStream") > 0 }) {
+				return errors.New("the request is not waiting for a stream slot")
+			}
+			return nil
+		}})
+		st = append(st, h2step{"slot freed, request HEADERS received", hdrLabels, func(r *h2run) error {
+			if err := r.finishBlocker(); err != nil {
+				return err
+			}
+			return r.waitRequestHeaders(1)
+		}})
+	} else if sp.Reuse {
 		st = append(st, h2step{"request HEADERS received on the re-used connection", hdrLabels, func(r *h2run) error {
 			return r.waitRequestHeaders(1)
 		}})
@@ -277,12 +319,45 @@ func h2steps(sp h2spec) []h2step {
 		}})
 	}
 	if sp.Upload {
-		st = append(st, h2step{"65535 body bytes received, window exhausted", nil, func(r *h2run) error {
+		firstLabels := []string(nil)
+		if sp.Expect {
+			firstLabels = []string{"Y100"}
+		}
+		st = append(st, h2step{"65535 body bytes received, window exhausted", firstLabels, func(r *h2run) error {
+			if r.spec.Expect {
+				time.Sleep(30 * time.Millisecond)
+				r.pc.mu.Lock()
+				early := r.pc.st[r.sid].nbody
+				r.pc.mu.Unlock()
+				if early != 0 {
+					return fmt.Errorf("%d body bytes arrived before 100-continue", early)
+				}
+				if err := r.pc.headers(r.sid, false, ":status", "100"); err != nil {
+					return err
+				}
+			}
 			if !r.pc.waitFor(stepWait, func() bool { return r.pc.st[r.sid].nbody >= 65535 }) {
 				return errors.New("request body did not arrive")
 			}
 			return nil
 		}})
+		if sp.EarlyRsp {
+			st = append(st, h2step{"response HEADERS sent while the upload is stalled", []string{"YResp true"}, func(r *h2run) error {
+				if err := r.pc.headers(r.sid, false, ":status", "200", "content-length", fmt.Sprint(respBodyLen)); err != nil {
+					return err
+				}
+				return waitCh(r.call.hdrDone, "call did not return after the response head")
+			}})
+			st = append(st, h2step{"1000 body bytes sent and read", []string{"YData"}, func(r *h2run) error {
+				if err := r.pc.data(r.sid, false, r.resp[:1000]); err != nil {
+					return err
+				}
+				if !settle(func() bool { return r.call.nread.Load() >= 1000 }) {
+					return errors.New("caller did not receive the body bytes")
+				}
+				return nil
+			}})
+		}
 		st = append(st, h2step{"window opened, whole request body received", []string{"YBodyWritten"}, func(r *h2run) error {
 			if err := r.pc.windowUpdate(r.sid, 1<<20); err != nil {
 				return err
@@ -299,6 +374,15 @@ func h2steps(sp h2spec) []h2step {
 				return err
 			}
 			return waitCh(r.call.bodyDone, "call did not return after the complete response")
+		}})
+		return st
+	}
+	if sp.EarlyRsp {
+		st = append(st, h2step{"rest of the body and END_STREAM sent, end of body read", []string{"YEnd", "YReadEOF"}, func(r *h2run) error {
+			if err := r.pc.data(r.sid, true, r.resp[1000:]); err != nil {
+				return err
+			}
+			return waitCh(r.call.bodyDone, "body read did not end")
 		}})
 		return st
 	}
@@ -391,7 +475,29 @@ func runH2(sp h2spec, kind string, pos int, racy bool) (o h2obs) {
 	}
 	url := "http://c08.test/x"
 
-	if sp.Reuse { // warm-up exchange on stream 1
+	if sp.SlotWait { // a held request occupies the only stream slot; the limit is honoured on this connection
+		c.GetTransport().SetHTTP2StrictMaxConcurrentStreams(true)
+		r.dl.setOpen(true)
+		r.blockerDone = make(chan struct{})
+		go func() {
+			defer close(r.blockerDone)
+			c.R().SetContext(context.Background()).Get(url)
+		}()
+		if err := r.acceptConn(); err != nil {
+			o.Harness = "blocker: " + err.Error()
+			return
+		}
+		if err := r.waitRequestHeaders(0); err != nil {
+			o.Harness = "blocker: " + err.Error()
+			return
+		}
+		if !r.pc.waitFor(stepWait, func() bool { return r.pc.acked }) {
+			o.Harness = "blocker: SETTINGS not acknowledged"
+			return
+		}
+		r.sid = 0
+		r.dl.setOpen(false)
+	} else if sp.Reuse { // warm-up exchange on stream 1
 		r.dl.setOpen(true)
 		wdone := make(chan error, 1)
 		go func() {
@@ -421,6 +527,7 @@ func runH2(sp h2spec, kind string, pos int, racy bool) (o h2obs) {
 			o.Harness = "warm-up did not finish"
 			return
 		}
+		r.sid = 0
 		r.dl.setOpen(false)
 	}
 
@@ -441,6 +548,10 @@ func runH2(sp h2spec, kind string, pos int, racy bool) (o h2obs) {
 		ctx, inject = context.Background(), func() {}
 	}
 	rq := c.R().SetContext(ctx).DisableAutoReadResponse()
+	if sp.Expect {
+		c.GetTransport().SetExpectContinueTimeout(time.Hour)
+		rq.SetHeader("Expect", "100-continue")
+	}
 	method := "GET"
 	if sp.Upload {
 		method = "POST"
@@ -538,6 +649,9 @@ func runH2(sp h2spec, kind string, pos int, racy bool) (o h2obs) {
 	}
 
 	// ----- epilogue -----
+	if err := r.finishBlocker(); err != nil {
+		o.Harness = "epilogue: " + err.Error()
+	}
 	r.dl.openAll()
 	// late connections (a dial that was still gated) are served like the first one
 	go func() {
